@@ -683,7 +683,7 @@ def _func(tree, name):
 
 def _floaty(rhs):
     t = ast.unparse(rhs).replace(' ', '')
-    return any(m in t for m in ('astype(float', 'astype(np.float', 'dtype=float', 'dtype=np.float'))
+    return any(m in t for m in ('astype(float', 'astype(np.float', 'dtype=float', 'dtype=np.float', 'astype(np.result_type(self._data.dtype,np.float32))'))
 
 
 def gen_float_guards():
@@ -745,7 +745,7 @@ def gen_float_guards():
            f'def totalErrorSourceVarianceIsFloat : Bool := {b(sv_float)}\n'
            f'/-- _filter_data: integer data are converted with astype(float) before convolution -/\n'
            f'def filterDataIntToFloat : Bool := {b(fd_ok)}\n'
-           f'/-- Background2D._calculate_stats: non-float data are converted to float32 before NaNs are inserted -/\n'
+           f'/-- Background2D._calculate_stats: non-float data are converted to a float dtype (float32, or float64 for integers wider than 16 bits) before NaNs are inserted -/\n'
            f'def background2dNonFloatToFloat32 : Bool := {b(b2d_ok)}\n'
            f'/-- SourceCatalog data / convdata cut-outs are float copies -/\n'
            f'def catalogCutoutsFloat : Bool := {b(cat_ok)}\n'
